@@ -41,6 +41,11 @@ func processMOV(env *Pass1, operands []ast.Exp) {
 		// Fallback or default size? For now, just log and don't update LOC.
 		return
 	}
+	// MOV CRn,r32 / MOV r32,CRn は常に 0F 22 /r, 0F 20 /r の 3 バイト。
+	// 2 バイトのオペコードは 1 バイトと数えられ、16bit モードでは出力されない 66h が数えられるので補正する
+	if ngOperands.IsControlRegisterOperation() {
+		size = 3
+	}
 	log.Printf("debug: processMOV: Calculated size=%d", size)
 	env.LOC += int32(size)
 
